@@ -12,6 +12,7 @@ Statements: {"s":"set","p":i,"v":n} {"s":"update","kvs":[[i,n],..]} {"s":"update
   {"s":"trigger","ps":[i,..]} {"s":"batch","body":[..]} {"s":"discard","body":[..]}
   {"s":"watch","w":{...}} {"s":"unwatch","id":k} {"s":"raise"} {"s":"try","body":[..]}
 """
+import json
 import sys
 
 
@@ -49,7 +50,7 @@ MAX_CALLS = 20000
 
 
 class Runner:
-    def __init__(self, case):
+    def __init__(self, case, cls=None):
         self.ncalls = 0
         import param
         from param.parameterized import batch_call_watchers, discard_events
@@ -66,11 +67,14 @@ class Runner:
             # through the class's ones
             kw = {'per_instance': False} if case.get('shared') and case.get('level') != 'class' else {}
             ns[f'p{i}'] = param.Event(**kw) if i in self.events else param.Integer(default=v, **kw)
-        self.cls = type('D', (param.Parameterized,), ns)
-        if case.get('inherit'):
-            # the object is a subclass that only inherits the parameters: a class-level assignment first installs
-            # a copy of the Parameter in the subclass, an instance is built from inherited Parameters
-            self.cls = type('E', (self.cls,), {})
+        if cls is not None:
+            self.cls = cls                    # the second object of a case: another instance of the same class
+        else:
+            self.cls = type('D', (param.Parameterized,), ns)
+            if case.get('inherit'):
+                # the object is a subclass that only inherits the parameters: a class-level assignment first installs
+                # a copy of the Parameter in the subclass, an instance is built from inherited Parameters
+                self.cls = type('E', (self.cls,), {})
         # the same programs run on an instance or on the class itself (class-level watchers and assignment)
         self.on_class = case.get('level') == 'class'
         self.obj = self.cls if self.on_class else self.cls()
@@ -90,6 +94,13 @@ class Runner:
         self.stack = [[]]
         for w in case['watchers']:
             self._watch(w)
+        self.steps = []
+        # a second instance of the same class with watchers of its own: `other k` statements (in the program, in
+        # context bodies, in callbacks of the first object) run the statements others[k] on it, each under its own
+        # try/except; its callbacks never touch the first object
+        self.twin = None
+        if case.get('others') is not None and cls is None and not self.on_class:
+            self.twin = Runner(dict(case, watchers=case.get('watchers2', []), program=[], others=None), cls=self.cls)
 
     # -- observation helpers ------------------------------------------------
     def _flags(self):
@@ -281,6 +292,11 @@ class Runner:
                     if any(any(x is w for x in self._wlist(n, sl)) for n in self.names for sl in (0, 1, 2)):
                         obj.param.unwatch(w)
             self._in(node, go)
+        elif k == 'other':
+            self._node('other', s['k'])['res'] = 'ok'
+            if self.twin is not None:
+                for st in self.case['others'][s['k']]:
+                    self.twin.run_top(st)
         elif k == 'raise':
             raise Boom()
         elif k == 'raiseBase':
@@ -293,21 +309,28 @@ class Runner:
         else:
             raise RuntimeError(k)
 
+    def run_top(self, s):
+        """one statement under try/except, the object observed afterwards"""
+        saved, self.stack = self.stack, [[]]
+        try:
+            self.run_stmt(s)
+            res = 'ok'
+        except (RecursionError, Runaway):
+            raise
+        except (Exception, BoomBase) as e:
+            res = _res_of(e)
+        st = {'res': res, 'items': self.stack[0]}
+        self.stack = saved
+        st.update(self.world())
+        self.steps.append(st)
+
     def run_program(self):
-        steps = []
         for s in self.case['program']:
-            self.stack = [[]]
-            try:
-                self.run_stmt(s)
-                res = 'ok'
-            except (RecursionError, Runaway):
-                raise
-            except (Exception, BoomBase) as e:
-                res = _res_of(e)
-            st = {'res': res, 'items': self.stack[0]}
-            st.update(self.world())
-            steps.append(st)
-        return {'steps': steps}
+            self.run_top(s)
+        out = {'steps': self.steps}
+        if self.twin is not None:
+            out['steps2'] = self.twin.steps
+        return out
 
 
 def run_impl(case):
@@ -535,7 +558,36 @@ def gen_case(rng, prop, max_params=4, max_watchers=5, faults=False, size=8):
             st = {'s': 'setSlot', 'p': p, 'k': what, 'v': rng.choice([0, 1, 2, 3])} if what else \
                  {'s': 'set', 'p': p, 'v': rng.choice([1, 1, 0, 7]) if p in events else value()}
             program.insert(rng.randrange(len(program) + 1), st)
-    return {'prop': prop, 'level': level, 'shared': shared, 'inherit': inherit, 'events': events, 'bounds': bounds, 'init': init, 'watchers': watchers,
+    extra = {}
+    if level == 'instance' and not shared and rng.random() < 0.35:
+        # a second instance of the class with watchers of its own; `other k` statements - in the program, inside
+        # its context bodies, at the end of callbacks of the first object - run statement list k on it
+        watchers2 = [mk_for_body() for _ in range(rng.randint(1, 3))]
+        others = [[stmt(1, n, False) for _ in range(rng.randint(1, 3))] for _ in range(rng.randint(1, 3))]
+
+        def lists(stmts):
+            yield stmts
+            for st in stmts:
+                if 'body' in st:
+                    yield from lists(st['body'])
+        for _ in range(rng.randint(1, 4)):
+            tgt = rng.choice(list(lists(program)))
+            tgt.insert(rng.randrange(len(tgt) + 1), {'s': 'other', 'k': rng.randrange(len(others))})
+        used2 = {w['body'] for w in watchers2}
+        for w in watchers:
+            if rng.random() < 0.4 and w['id'] not in state['shared']:
+                # this callback of the first object also acts on the second one (a body of its own: the second
+                # object's callbacks must never reach back)
+                old = bodies[w['body']] if w['body'] < len(bodies) else []
+                while len(bodies) <= nb:
+                    bodies.append([])
+                nbody = list(old)
+                nbody.insert(rng.randrange(len(nbody) + 1), {'s': 'other', 'k': rng.randrange(len(others))})
+                w['body'] = len(bodies)
+                bodies.append(nbody)
+        assert not any('other' in json.dumps(bodies[j]) for j in used2 if j < len(bodies))
+        extra = {'others': others, 'watchers2': watchers2}
+    return {**extra, 'prop': prop, 'level': level, 'shared': shared, 'inherit': inherit, 'events': events, 'bounds': bounds, 'init': init, 'watchers': watchers,
             'bodies': bodies, 'program': program}
 
 
